@@ -64,7 +64,7 @@ def shards(tier, seed):
 
 def universe(seed, uid):
     rng = core.rng_for(seed, PROP, 'uni%d' % uid)
-    o = gen.Opts(max_types=3, nested_arrays=0.0, styles=('wrapped', 'wrapped', 'bare'), multi_return=False, methods=(2, 3), services=(1, 1),
+    o = gen.Opts(sub_names=True, max_types=3, nested_arrays=0.0, styles=('wrapped', 'wrapped', 'bare'), multi_return=False, methods=(2, 3), services=(1, 1),
                  attrs=True, defaults=True)
     ir = gen.rand_universe(rng, o, uid=uid)
     for sd in ir['services']:
